@@ -79,33 +79,15 @@ Theorem C07_no_reappear_no_vanish : forall R A B R' k,
 Proof. exact veq_absent. Qed.
 Print Assumptions C07_no_reappear_no_vanish.
 
-(* C07_borders: for every configuration whose skipped prefixes are under prefix/ and pairwise non-nested (hence
-   duplicate-free) - any number of them, in any order, including a prefix that is a string prefix of another
-   followed by a byte below '/' - the border pairs of getCompactBorders cover exactly the keys in charge
-   (under prefix/, under no skipped prefix). With C07_pass_all_ranges: no record outside is deleted.
-   Nested / duplicated / not-under-prefix configurations refute the unrestricted statement (Examples C07_borders_refuted_nested, _duplicate) *)
+(* C07_borders, for EVERY configuration (getCompactBorders normalises the skipped prefixes: "/" appended, a
+   skipped prefix containing the whole prefix range means nothing to compact, one outside the range is ignored,
+   of nested or duplicated ones the outermost is kept): the border pairs cover exactly the keys in charge -
+   under prefix/, under no skipped prefix. With C07_pass_all_ranges: no record outside is deleted. *)
 Theorem C07_borders : forall p sk k,
-  alpha p -> Forall alpha sk -> alpha k -> last_is slash p = false ->
-  Forall (fun s => last_is slash s = false) sk -> good_config p sk = true ->
+  alpha p -> Forall alpha sk -> alpha k ->
   existsb (fun lh => bleb (fst lh) k && bltb k (snd lh)) (ranges_of p sk) = in_charge p sk k.
-Proof. exact borders_general. Qed.
+Proof. exact borders_all. Qed.
 Print Assumptions C07_borders.
-
-(* the shape of the ranges for no and for one skipped prefix *)
-Theorem C07_borders_none_partial : forall p k,
-  alpha p -> alpha k -> last_is slash p = false ->
-  ranges_of p [] = [(p ++ [47], p ++ [48])] /\
-  existsb (fun lh => bleb (fst lh) k && bltb k (snd lh)) (ranges_of p []) = in_charge p [] k.
-Proof. exact borders_none. Qed.
-Print Assumptions C07_borders_none_partial.
-
-Theorem C07_borders_one_partial : forall p t k,
-  alpha p -> alpha t -> alpha k -> last_is slash p = false -> last_is slash (p ++ [47] ++ t) = false -> t <> [] ->
-  let s := p ++ [47] ++ t in
-  ranges_of p [s] = [(p ++ [47], s ++ [47]); (s ++ [48], p ++ [48])] /\
-  existsb (fun lh => bleb (fst lh) k && bltb k (snd lh)) (ranges_of p [s]) = in_charge p [s] k.
-Proof. exact borders_one. Qed.
-Print Assumptions C07_borders_one_partial.
 
 (* the relaxed well-formedness ("one index per key; a live index names the newest version, which is not a
    tombstone; a flagged or a MISSING index sits above a version list that is empty or ends in a tombstone")
@@ -268,25 +250,27 @@ Example C07_order_needed :
   get_at (del_slot (RVer ka 103 tombstone) exV) 105 ka = Some (102, [2]).
 Proof. vm_compute. split; reflexivity. Qed.
 
-(* {/r/pods, /r/pods.archive, /r/s}: string order and key-range order differ, the configuration is good *)
-Example C07_ex_borders_dot_hyps :
+(* the ranges of some configurations. {/r/pods, /r/pods.archive, /r/s}: string order and key-range order differ *)
+Example C07_ex_borders_dot :
   let sk := [[47;114;47;112;111;100;115]; [47;114;47;112;111;100;115;46;97]; Ps] in
-  good_config P sk = true /\ Forall alpha sk /\ Forall (fun s => last_is slash s = false) sk /\
+  Forall alpha sk /\ alpha P /\
   ranges_of P sk = [([47;114;47], [47;114;47;112;111;100;115;46;97;47]); ([47;114;47;112;111;100;115;46;97;48], [47;114;47;112;111;100;115;47]);
                     ([47;114;47;112;111;100;115;48], [47;114;47;115;47]); ([47;114;47;115;48], [47;114;48])].
-Proof. cbv zeta. split; [vm_compute; reflexivity|]. split; [repeat constructor|]. split; [repeat constructor|vm_compute; reflexivity]. Qed.
+Proof. cbv zeta. split; [repeat constructor|]. split; [repeat constructor|vm_compute; reflexivity]. Qed.
 
-Example C07_ex_borders_one_hyps :
-  alpha P /\ alpha [115] /\ last_is slash P = false /\ last_is slash (P ++ [47] ++ [115]) = false /\
-  in_charge P [Ps] (P ++ [47;120]) = true /\ in_charge P [Ps] (Ps ++ [47;120]) = false /\ good_config P [Ps] = true.
-Proof. repeat split; try (vm_compute; reflexivity); repeat constructor. Qed.
-
-(* compaction borders: nested / duplicated skipped prefixes compact inside a skipped range (finding C07-F1) *)
-Example C07_borders_refuted_nested :
+(* the configurations that used to compact inside a skipped range (finding C07-F1, fixed): nested, duplicated,
+   merely starting with the prefix string, containing the whole range - the records under them are out of every range *)
+Example C07_ex_borders_nested :
+  ranges_of P [Ps; Pss] = [(P ++ [47], Ps ++ [47]); (Ps ++ [48], P ++ [48])] /\
+  ranges_of P [Pss; Ps] = [(P ++ [47], Ps ++ [47]); (Ps ++ [48], P ++ [48])] /\
   in_charge P [Ps; Pss] (Pss ++ [47;121]) = false /\
-  existsb (fun lh => in_range (fst lh) (snd lh) (RVer (Pss ++ [47;121]) 1 [])) (ranges_of P [Ps; Pss]) = true.
-Proof. vm_compute. split; reflexivity. Qed.
-Example C07_borders_refuted_duplicate :
-  in_charge P [Ps; Ps] (Ps ++ [47;121]) = false /\
-  existsb (fun lh => in_range (fst lh) (snd lh) (RVer (Ps ++ [47;121]) 1 [])) (ranges_of P [Ps; Ps]) = true.
-Proof. vm_compute. split; reflexivity. Qed.
+  existsb (fun lh => in_range (fst lh) (snd lh) (RVer (Pss ++ [47;121]) 1 [])) (ranges_of P [Ps; Pss]) = false.
+Proof. vm_compute. repeat split. Qed.
+Example C07_ex_borders_duplicate :
+  ranges_of P [Ps; Ps] = [(P ++ [47], Ps ++ [47]); (Ps ++ [48], P ++ [48])] /\
+  existsb (fun lh => in_range (fst lh) (snd lh) (RVer (Ps ++ [47;121]) 1 [])) (ranges_of P [Ps; Ps]) = false.
+Proof. vm_compute. repeat split. Qed.
+Example C07_ex_borders_out_of_range_and_covering :
+  ranges_of P [P ++ [102;111;111]] = [(P ++ [47], P ++ [48])] /\          (* /rfoo: ignored *)
+  ranges_of P [[47]] = [] /\ ranges_of P [P] = [].                          (* "/" and the prefix itself: nothing to compact *)
+Proof. vm_compute. repeat split. Qed.
